@@ -141,6 +141,24 @@ def run(tier):
             if not ok:
                 failures.append(dict(kind='program', summary=f'law {law} fails on the implementation: lhs={gen_a.coq_prog(lhs)[:200]} -> {lv!r} ; rhs -> {rv!r}'[:600],
                                      program=lhs.to_json(), coq_prog=gen_a.coq_prog(lhs), want=['iter', 'index'], law=law))
+        # tile(r, shuffle=True) = concatenation of r independently shuffled copies (same global numpy state on both sides)
+        if caps['indexable'] and caps['n']:
+            import numpy as np
+            reps, sd = r.randint(2, 3), r.randint(0, 10 ** 6)
+            laws['tile_shuffle'] += 1
+            try:
+                np.random.seed(sd)
+                lv = gen_a.obs_iter(obj.tile(reps, shuffle=True), False)
+            except Exception as e:
+                lv = ('refused', type(e).__name__)
+            try:
+                np.random.seed(sd)
+                rv = gen_a.obs_iter(ld.concatenate(*[obj.shuffle() for _ in range(reps)]), False)
+            except Exception as e:
+                rv = ('refused', type(e).__name__)
+            if repr(lv) != repr(rv) and not (lv[0] == 'refused' and rv[0] == 'refused'):
+                failures.append(dict(kind='program', summary=f'law tile_shuffle fails on the implementation: tile({reps}, shuffle=True) of {gen_a.coq_prog(base)[:200]} under numpy seed {sd} -> {lv!r} ; concatenation of {reps} shuffles -> {rv!r}'[:700],
+                                     program=base.to_json(), coq_prog=gen_a.coq_prog(base), want=['iter'], law='tile_shuffle'))
     res = model_a.run_a('C16', tier, {'iter', 'index', 'keys'}, n_quick=0, n_thorough=0, extra_nodes=nodes)
     res.pop('cases', None)
     res['failures'] = failures + res['failures']
